@@ -376,7 +376,7 @@ def rule_case_mapping(ctx: Ctx, rep: Report) -> None:
 def rule_text_admission_(ctx: Ctx, rep: Report) -> None:
     """C06.text_admission: an address reaches its decoder with nothing but its ends trimmed (see sigcommon.rule_text_admission)."""
     from rules.sigcommon import rule_text_admission
-    rule_text_admission(ctx, rep, "C06.text_admission", ("btclib.b32", "btclib.b58", "btclib.base58", "btclib.bech32", "btclib.script.script_pub_key"), 2)
+    rule_text_admission(ctx, rep, "C06.text_admission", ("btclib.b32", "btclib.b58", "btclib.base58", "btclib.bech32", "btclib.script.script_pub_key", "btclib.bip32.bip32", "btclib.to_prv_key", "btclib.to_pub_key", "btclib.bip21"), 2)
 
 
 def rule_coercion_used_(ctx: Ctx, rep: Report) -> None:
